@@ -31,6 +31,8 @@ pub enum V<'tcx> {
     Agg(Vec<V<'tcx>>),
     Enum(u32, Vec<V<'tcx>>),
     Ptr(Ptr),
+    /// pointer to a trait object: data pointer + the concrete pointee type it was unsized from
+    Dyn(Ptr, Ty<'tcx>),
     FnDef(DefId, ty::GenericArgsRef<'tcx>),
     /// opaque function pointer given as root argument
     OpaqueFn(String),
